@@ -107,6 +107,42 @@ CLAIMED = {
         'Summaries "callee leaves its receiver fresh" for repair/rotate_*/insert are verified by the same rule in the callee.',
    technique='static analysis: typestate (may-stale) dataflow over MIR with points-to, post-dominance, guard normalisation, sibling cross-check',
    ref='DESIGN.md section 2, C07'),
+
+ 'C06': dict(level='other',
+   text='One table clause decided exactly: (TB-2) the symbol order literal iterated by FMDIndex::backward_ext equals the '
+        'complements (reconstructed from the dna::COMPLEMENT initialiser) of the index alphabet (literal of dna::n_alphabet plus '
+        'the sentinel inserted and asserted in FMDIndex::from) in ascending byte order, and forward_ext is the swapped backward '
+        'extension by the complement symbol. Supermaximality and interval/occurrence exactness are NOT decided.',
+   note='Trusted: rustc MIR constants (byte-string literals), extractor, table reconstruction of C20/TB-6.',
+   technique='static analysis: literal/constant table agreement extracted from type-checked MIR',
+   ref='DESIGN.md section 2, C06'),
+ 'C15': dict(level='other',
+   text='Exact clauses decided on evaluated constants and MIR: (TB-5) LOG_TO_PHRED_FACTOR and PHRED_TO_LOG_FACTOR equal -10/ln10 '
+        'and -ln10/10 within 2 ulp, are mutually inverse, and every From impl between LogProb/PHREDProb/Prob uses the factor or '
+        'base-10 formula of its direction; (GD-5) Prob::checked builds Ok only on the edge of (0.0..=1.0).contains(&p); (GD-8) in '
+        'ln_add_exp/ln_sum_exp/ln_sub_exp the difference of two log-probabilities is only formed behind an `== ln_zero()` guard '
+        '(no -inf - -inf = NaN). Every accuracy bound of the fast exponential is NOT decided (no static f64 error analysis in reach).',
+   note='Trusted: rustc const evaluation, MIR, extractor.',
+   technique='static analysis: evaluated-constant checks and guard dominance over rustc MIR',
+   ref='DESIGN.md section 2, C15'),
+ 'C17': dict(level='other',
+   text='(GD-6) rank_1 reads the bit vector only behind i < n and returns None otherwise, select_x refuses j == 0 before any '
+        'access, rank_0 = (i+1) - rank_1(i), WaveletMatrix::rank asserts p < width before walking levels; (SB-9) select_1/select_0 '
+        'and RankSelect::new pair the matching superblock table, bit predicate and popcount; (TB-7) the evaluated DNA2INT table is '
+        'injective on ACGTN$, fits the literal height, lower-case twins agree, and builder and query select bit (height-level-1). '
+        'Equality with naive counting at superblock boundaries is NOT decided.',
+   note='Trusted: rustc MIR and const evaluation, extractor.',
+   technique='static analysis: guard dominance, sibling pairing and evaluated-table rules over rustc MIR',
+   ref='DESIGN.md section 2, C17'),
+ 'C20': dict(level='proof',
+   text='(TB-6, exhaustive over all 256 bytes) the DNA and RNA complement tables are reconstructed from their initialisers '
+        '(identity pre-fill, the two pair literals, store shapes t[a]=b and t[a+32]=b+32 recognised in the MIR, anything else fails '
+        'closed) and checked to be involutions that preserve case, fix non-letters and pair A-T/U, C-G; complement() is a plain '
+        'lookup and revcomp = rev . map(complement), hence revcomp(revcomp(x)) = x. (TB-8) gc content counts exactly {C,G,c,g} and '
+        'gc_content/gc3_content use steps 1/3. ORF soundness/completeness and alphabet rank bijection are NOT decided.',
+   note='Trusted: rustc MIR constants, extractor, and that the recognised store shapes are the only writes to the table (checked: any other store fails closed).',
+   technique='static analysis: table reconstruction from MIR literals + exhaustive finite check',
+   ref='DESIGN.md section 2, C20'),
 }
 
 NOT_BUILT = 'rule not built yet (see DESIGN.md section 6)'
